@@ -152,7 +152,9 @@ def byte_item(v):
 
 def items_of(x):
     """element list of any bytes-like (real or proxy)."""
-    if _real_isinstance(x, (SBytes, SByteArray)):
+    if _real_isinstance(x, SByteArray):
+        return list(x.items)  # mutable source: never share the list
+    if _real_isinstance(x, SBytes):
         return x.items
     if _real_isinstance(x, SMemoryView):
         return x._items()
